@@ -82,6 +82,10 @@ def marker_of(kind, resp):
 
 
 def response_header(kind, corr):
+    # flexible response header = correlation id + tagged fields.  Brokers send an empty section today (delrec2 below); the
+    # protocol allows fields there, so one kind carries one (tag 7, two bytes): the body starts behind it
+    if kind == "listreass0":
+        return struct.pack(">i", corr) + b"\x01\x07\x02ab"
     return struct.pack(">i", corr) + (b"\x00" if kind in FLEX else b"")
 
 
